@@ -27,7 +27,8 @@ STANDS = ['bridgepoint.ooaofooa.mk_function', 'bridgepoint.ooaofooa.mk_bridge', 
           'bridgepoint.interpret.run_function', 'bridgepoint.interpret.run_operation', 'bridgepoint.interpret.run_derived_attribute',
           'bridgepoint.interpret.ActionWalker.accept_ReturnNode', 'bridgepoint.interpret.ActionWalker.accept_BodyNode',
           'bridgepoint.interpret.SymbolTable']
-NOTE = ('calls are never operands of and/or and only side-effect-free callables are called from where clauses (evaluation count / '
+NOTE = ('non-trivial cases = cases the reference evaluator accepts (they are loaded and run on the real code); '
+        'cases with a side effect during the evaluation of a where clause or of an and/or operand are skipped (evaluation count / '
         'short-circuit are not fixed by the property); select any / for each order from C09; cases the reference rejects are skipped')
 
 
